@@ -1,5 +1,6 @@
-(* GENERATED on every run by harness/props/c08.py from /repo - do not edit *)
+(* GENERATED on every run by harness/props/c08.py from /tmp/refchk_C20_r5 - do not edit *)
 From Coq Require Import List String.
 Import ListNotations.
 Open Scope string_scope.
-Definition owned_prefixes : list string := ["w/"; "q/"; "tmp/"].
+(* observed on the running Branch.remove: the first segments (1-3 lower-case letters) it deletes without force *)
+Definition owned_prefixes : list string := ["q/"; "w/"; "tmp/"].
